@@ -29,6 +29,7 @@ CONSTANTS
   BestBeforeClear = FALSE
   EofLoops = FALSE
   ParserPanics = FALSE
+  Disciplined = TRUE
   Script <- %s
 INVARIANT Emit
 CHECK_DEADLOCK FALSE
